@@ -126,6 +126,8 @@ def concrete(sub, item):
             sub.violation(f'uncovered-returned:{t0}:{t1}:{role}', f'tables {t0}/{t1} ({role}): some input matches no level but '
                           f'{len(out)} sequences are returned, e.g. {out[0]}', data)
         return
+    if not out and role == 'constrained' and all(t0):
+        return   # every trial is d0, so AtMostKInARow(3, d0) over 4 trials legitimately leaves no sequence
     if not out:
         sub.violation(f'empty:{t0}:{t1}:{role}', f'tables {t0}/{t1} ({role}): total unambiguous factor but no sequence', data)
         return
